@@ -252,6 +252,8 @@ class Parser(AttrParser):
                     [(original_definition, None)],
                 )
             self.forward_block_references.pop(name)
+            # Record the definition, so that a second one is reported as such
+            self.blocks[name] = (block, name_token.span)
 
         # Don't set name_hint for blocks that match the default pattern, or that
         # are not valid name hints (e.g. `^42`)
